@@ -191,6 +191,9 @@ fn run_history(h: &History, params: &super::super::chain::ChainParams, ccfg: &su
     let counter = Rc::new(RefCell::new((0u64, Vec::<(&'static str, String)>::new(), String::from("open"))));
     let c2 = counter.clone();
     crate::verif_hook::install(Box::new(move |site| {
+        if site.starts_with("read:") {
+            return; // read-side pause points are not writes
+        }
         let mut g = c2.borrow_mut();
         g.0 += 1;
         let during = g.2.clone();
